@@ -9,14 +9,6 @@ use crate::{
 use byteorder::{LittleEndian, ReadBytesExt};
 use std::path::Path;
 
-pub fn get_current_version(folder: &std::path::Path) -> crate::Result<VersionId> {
-    use byteorder::{LittleEndian, ReadBytesExt};
-
-    std::fs::File::open(folder.join(CURRENT_VERSION_FILE))
-        .and_then(|mut f| f.read_u64::<LittleEndian>())
-        .map_err(Into::into)
-}
-
 pub struct RecoveredTable {
     pub id: TableId,
     pub checksum: Checksum,
@@ -31,11 +23,40 @@ pub struct Recovery {
     pub gc_stats: crate::blob_tree::FragmentationMap,
 }
 
+/// Reads the version pointer file: the current version's ID and the checksum of its file.
+fn get_current_version_with_checksum(
+    folder: &std::path::Path,
+) -> crate::Result<(VersionId, Checksum)> {
+    let mut file = std::fs::File::open(folder.join(CURRENT_VERSION_FILE))?;
+
+    let id = file.read_u64::<LittleEndian>()?;
+    let checksum = file.read_u128::<LittleEndian>()?;
+    let checksum_type = file.read_u8()?;
+
+    if checksum_type != 0 {
+        return Err(crate::Error::InvalidTag(("ChecksumType", checksum_type)));
+    }
+
+    Ok((id, Checksum::from_raw(checksum)))
+}
+
 pub fn recover(folder: &Path) -> crate::Result<Recovery> {
-    let curr_version_id = get_current_version(folder)?;
+    let (curr_version_id, expected_checksum) = get_current_version_with_checksum(folder)?;
     let version_file_path = folder.join(format!("v{curr_version_id}"));
 
-    // TODO: maybe validate current version using the checksum in "current"
+    // NOTE: The sections of the version file are not protected by a checksum themselves,
+    // so validate the whole file using the checksum stored in "current",
+    // otherwise a corrupted version file may silently change what the tree contains
+    {
+        let bytes = std::fs::read(&version_file_path)?;
+        let got = Checksum::from_raw(xxhash_rust::xxh3::xxh3_128(&bytes));
+        got.check(expected_checksum).inspect_err(|_| {
+            log::error!(
+                "Checksum mismatch for version file {}, got={got}, expected={expected_checksum}",
+                version_file_path.display(),
+            );
+        })?;
+    }
 
     log::info!(
         "Recovering current manifest at {}",
